@@ -2,7 +2,7 @@
 
 use crate::common::*;
 use crate::sim::{self, Monitor};
-use crate::{catchup, fd, kv, listen, mtu, pairs, select, wirecheck};
+use crate::{catchup, fd, hostile, kv, listen, mtu, pairs, select, wirecheck};
 
 pub fn run_property(ctx: &Ctx) -> Option<Report> {
     let r = match ctx.prop.as_str() {
@@ -121,6 +121,14 @@ pub fn run_property(ctx: &Ctx) -> Option<Report> {
             catchup::run(ctx, &mut r);
             r
         }
+        "C09" => {
+            let mut r = Report::new(
+                "cases = a victim node in a generated reachable state (own keys, up to 4 member copies incl. mid-reset ones) receives up to 20 datagrams: random bytes (optionally with a valid header), structure-aware messages from the independent encoder whose op streams are syntactically valid but semantically arbitrary (explicit max version anywhere, non-monotone versions, duplicate members, the victim's own id, extreme u64 values, non-canonical blocks), and bit-flipped / truncated / spliced variants; interleaved with clock advances and liveness evaluations;                  non-trivial = at least one datagram decoded successfully and either is not producible by an honest encoder or carries a delta about a member the victim knows; distinct = by case",
+            );
+            r.assume("id universe of 48 short ids so that the victim's own digest always fits a datagram (the statement's precondition); decompression bombs (memory/time exhaustion) are outside the statement");
+            hostile::run(ctx, &mut r);
+            r
+        }
         _ => return None,
     };
     Some(r)
@@ -135,6 +143,7 @@ pub fn replay_property(ctx: &Ctx, sub: &str, case: &serde_json::Value) -> SubRes
         "C08" => wirecheck::replay(ctx, sub, case),
         "C14" => pairs::replay_c14(ctx, sub, case),
         "C18" => catchup::replay(ctx, sub, case),
+        "C09" => hostile::replay(ctx, sub, case),
         "C10" => fd::replay(ctx, sub, case, "C10"),
         "C11" => fd::replay(ctx, sub, case, "C11"),
         "C04" => match sub {
